@@ -317,6 +317,14 @@ func gen(g *core.G) {
 		}
 	}
 
+	// the Runtime types: generalisation of each, commonType of every pair
+	for _, a := range lat.RuntimeUniverse() {
+		g.Emit("gen " + s(a))
+		for _, b := range lat.RuntimeUniverse() {
+			g.Emit("common " + s(a) + " " + s(b))
+		}
+	}
+
 	// ---- (2) structured random cases ---------------------------------------------------------------------------------
 	for i := 0; i < 5000*g.Scale; i++ { // values: nested, heterogeneous, permuted, types and objects as elements
 		v := lg.Val(1 + g.Rng.Intn(3))
